@@ -97,6 +97,109 @@ fn ikm(rng: &mut Prng) -> B {
     b(v)
 }
 
+/// A *valid* peer public key for the private key `sk` whose Diffie-Hellman result is an algebraically
+/// special value that random keys never produce: NIST x-coordinate 0, tiny, in [n, p), with leading
+/// or trailing zero bytes; X25519 output with all but a few bytes zero. Every one of them is an
+/// ordinary shared secret as far as RFC 9180 is concerned.
+pub fn dh_partner(rng: &mut Prng, kem: KemId, sk: &[u8]) -> Option<Vec<u8>> {
+    use crate::math::U;
+    if kem == KemId::X25519 {
+        for _ in 0..96 {
+            let mut t = [0u8; 32];
+            match rng.below(7) {
+                0 => rng.fill(&mut t[24..]),
+                1 => rng.fill(&mut t[..8]),
+                2 => t[rng.below(32) as usize] = rng.range(1, 255) as u8,
+                3 => {
+                    let k = *rng.pick(&[1usize, 4, 8, 16, 28]);
+                    rng.fill(&mut t[k..]);
+                }
+                4 => {
+                    let k = *rng.pick(&[1usize, 4, 8, 16, 28]);
+                    rng.fill(&mut t[..32 - k]);
+                }
+                5 => {
+                    let v = rng.range(1, 127) as u8;
+                    t = [v; 32];
+                }
+                _ => {
+                    rng.fill(&mut t[8..16]);
+                }
+            }
+            t[31] &= 0x7f;
+            if let Some(p) = refhpke::x25519_partner(sk, &t) {
+                return Some(p);
+            }
+        }
+        return None;
+    }
+    let cv = math::curve(kem);
+    let one = U::from_u64(1);
+    for _ in 0..64 {
+        let r = U::from_u64(rng.below(1 << 16));
+        let x = match rng.below(9) {
+            0 => U::ZERO,
+            1 => r,
+            2 => cv.p.sub(&one).0.sub(&r).0, // in [n, p): not a canonical scalar, still a field element
+            3 => cv.n.add(&r).0,
+            4 => cv.n.sub(&r).0,
+            5 => {
+                // leading zero bytes
+                let k = *rng.pick(&[1usize, 2, 8, 16]);
+                let mut v = rng.rand_bytes(cv.flen);
+                for b in v.iter_mut().take(k) {
+                    *b = 0;
+                }
+                U::from_be(&v)
+            }
+            6 => {
+                // trailing zero bytes
+                let k = *rng.pick(&[1usize, 2, 8, 16]);
+                let mut v = rng.rand_bytes(cv.flen);
+                let l = v.len();
+                for b in v[l - k..].iter_mut() {
+                    *b = 0;
+                }
+                if kem == KemId::P521 {
+                    v[0] &= 1;
+                }
+                U::from_be(&v)
+            }
+            7 => {
+                let mut v = vec![0u8; cv.flen];
+                let i = rng.below(cv.flen as u64) as usize;
+                v[i] = 1 << rng.below(8);
+                if kem == KemId::P521 && i == 0 {
+                    v[0] = 1;
+                }
+                U::from_be(&v)
+            }
+            _ => {
+                let mut v = vec![rng.range(1, 255) as u8; cv.flen];
+                if kem == KemId::P521 {
+                    v[0] &= 1;
+                }
+                U::from_be(&v)
+            }
+        };
+        if let Some(p) = refhpke::partner_for_x(kem, sk, &x) {
+            return Some(p);
+        }
+    }
+    None
+}
+
+/// A seal event; now and then one whose *ciphertext* (not plaintext) is given a shape that a
+/// content-sniffing code path could mistake for something else
+fn seal_ev(rng: &mut Prng, c: usize, pt: B, aad: B) -> Ev {
+    if rng.chance(1, 14) {
+        let craft = *rng.pick(&[Craft::PrefixEnc, Craft::PrefixEnc, Craft::PrefixPkR, Craft::PrefixInfo, Craft::PrefixAad, Craft::Zeros, Craft::Ones]);
+        let len = *rng.pick(&[0usize, 1, 15, 16, 17, 32, 40]);
+        return Ev::SealCrafted { c, craft, len, aad, inplace: rng.chance(1, 2) };
+    }
+    Ev::Seal { c, pt, aad, inplace: rng.chance(1, 2) }
+}
+
 fn rng_script(rng: &mut Prng, kem: KemId) -> B {
     let nsk = kem.rfc_sizes().2;
     if kem == KemId::P256 && rng.chance(1, 64) {
@@ -119,9 +222,53 @@ fn rng_script(rng: &mut Prng, kem: KemId) -> B {
 }
 
 /// Keygen(2c), Keygen(2c+1), SetupS(c), SetupR(c)
+/// A session whose key schedule yields a base nonce / key / exporter secret that *starts with zero
+/// bytes* (found by search, see special.rs): value-dependent shortcuts ("nothing to wipe", "already
+/// zero", "counter part only") show on such contexts and on no randomly drawn one.
+fn special_ks_session(ev: &mut Vec<Ev>, rng: &mut Prng, c: usize, shim_ok: bool) -> Cfg {
+    let e = &crate::special::KS_TABLE[rng.below(crate::special::KS_TABLE.len() as u64) as usize];
+    let suite = SuiteId { kem: e.kem, kdf: e.kdf, aead: e.aead, shim: shim_ok && rng.chance(1, 3) };
+    let cfg = Cfg { suite, mode: ModeKind::Base, info: b(unhex(e.info)), psk: b(vec![]), psk_id: b(vec![]) };
+    ev.push(Ev::Keygen { k: 2 * c, kem: e.kem, ikm: b(e.ikm_r.as_bytes().to_vec()) });
+    ev.push(Ev::SetupS { c, cfg: cfg.clone(), kr: 2 * c, ks: None, ks_pub: None, rng: b(unhex(e.ikm_e)), model_only: false });
+    ev.push(Ev::SetupR { c, cfg: cfg.clone(), kr: 2 * c, ks: None, enc: EncSrc::Of(c), model_only: false });
+    cfg
+}
+
+/// Session c between honest keys whose DH result is special (zero bytes at an end, zero checksum;
+/// table in special.rs). False if the table has nothing for this KEM.
+fn special_dh_session(ev: &mut Vec<Ev>, rng: &mut Prng, c: usize, cfg: &Cfg, s_model: bool, r_model: bool) -> bool {
+    let kem = cfg.suite.kem;
+    let cands: Vec<&crate::special::DhSpecial> = crate::special::DH_TABLE.iter().filter(|e| e.kem == kem).collect();
+    if cands.is_empty() {
+        return false;
+    }
+    let e = *rng.pick(&cands);
+    ev.push(Ev::Keygen { k: 2 * c, kem, ikm: b(unhex(e.ikm_r)) });
+    let (ks, script) = if cfg.mode.has_auth() && rng.chance(1, 2) {
+        // the identity DH is the special one
+        ev.push(Ev::Keygen { k: 2 * c + 1, kem, ikm: b(unhex(e.ikm_o)) });
+        (Some(2 * c + 1), rng_script(rng, kem))
+    } else {
+        let ks = if cfg.mode.has_auth() {
+            ev.push(Ev::Keygen { k: 2 * c + 1, kem, ikm: ikm(rng) });
+            Some(2 * c + 1)
+        } else {
+            None
+        };
+        (ks, b(unhex(e.ikm_o)))
+    };
+    ev.push(Ev::SetupS { c, cfg: cfg.clone(), kr: 2 * c, ks, ks_pub: None, rng: script, model_only: s_model });
+    ev.push(Ev::SetupR { c, cfg: cfg.clone(), kr: 2 * c, ks, enc: EncSrc::Of(c), model_only: r_model });
+    true
+}
+
 fn setup_pair(ev: &mut Vec<Ev>, rng: &mut Prng, c: usize, cfg: &Cfg, s_model: bool, r_model: bool) {
     let kem = cfg.suite.kem;
     let nsk = kem.rfc_sizes().2;
+    if rng.chance(1, 24) && special_dh_session(ev, rng, c, cfg, s_model, r_model) {
+        return;
+    }
     let ikm_r = if rng.chance(1, 30) { b(rng.rand_bytes(nsk)) } else { ikm(rng) };
     if rng.chance(1, 25) {
         // special private keys as the recipient's: scalar 1, 2, n-1, n-2 (NIST); for X25519 a private
@@ -209,6 +356,9 @@ pub fn gen_c01(rng: &mut Prng, run: u64, t: &Tier) -> Vec<Ev> {
         ev.push(Ev::VolumePump { c: 0, n: 3, len: 1000 });
         return ev;
     }
+    if run == 6 || (t.thorough && run % 50_000 == 78) {
+        return single_huge_message(rng, run);
+    }
     let (suite, mode) = suite_mode_biased(run, rng, &SEAL_AEADS, false);
     let cfg = gen_cfg(rng, suite, mode, 300);
     let kem = suite.kem;
@@ -249,7 +399,7 @@ pub fn gen_c01(rng: &mut Prng, run: u64, t: &Tier) -> Vec<Ev> {
             let early = if rng.chance(1, 3) { rng.range(1, 4) } else { 0 };
             for _ in 0..early {
                 let (pt, aad) = msg(rng, true);
-                ev.push(Ev::Seal { c: 0, pt, aad, inplace: rng.chance(1, 2) });
+                ev.push(seal_ev(rng, 0, pt, aad));
             }
             ev.push(Ev::SetupR { c: 0, cfg: cfg.clone(), kr: 0, ks, enc: EncSrc::Of(0), model_only: false });
             for _ in 0..early {
@@ -258,7 +408,7 @@ pub fn gen_c01(rng: &mut Prng, run: u64, t: &Tier) -> Vec<Ev> {
             let n = rng.range(0, 12);
             for _ in 0..n {
                 let (pt, aad) = msg(rng, true);
-                ev.push(Ev::Seal { c: 0, pt, aad, inplace: rng.chance(1, 2) });
+                ev.push(seal_ev(rng, 0, pt, aad));
                 ev.push(Ev::Deliver { r: 0, from: 0, rec: RecRef::Next, fault: Fault::None, api: open_api(rng) });
             }
             if rng.chance(1, 5) {
@@ -269,7 +419,7 @@ pub fn gen_c01(rng: &mut Prng, run: u64, t: &Tier) -> Vec<Ev> {
                 ev.push(Ev::Jump { c: 0, role: Role::R, to });
                 for _ in 0..rng.range(1, 4) {
                     let (pt, aad) = msg(rng, false);
-                    ev.push(Ev::Seal { c: 0, pt, aad, inplace: rng.chance(1, 2) });
+                    ev.push(seal_ev(rng, 0, pt, aad));
                     ev.push(Ev::Deliver { r: 0, from: 0, rec: RecRef::Next, fault: Fault::None, api: open_api(rng) });
                 }
             }
@@ -281,6 +431,13 @@ pub fn gen_c01(rng: &mut Prng, run: u64, t: &Tier) -> Vec<Ev> {
                 ev.push(Ev::Seal { c: 0, pt, aad, inplace: false });
                 ev.push(Ev::Deliver { r: 0, from: 0, rec: RecRef::Next, fault: Fault::None, api: open_api(rng) });
             }
+        }
+    }
+    if rng.chance(1, 6) && special_dh_session(&mut ev, rng, 5, &cfg, false, false) && suite.aead.seals() {
+        for _ in 0..2 {
+            let (pt, aad) = msg(rng, false);
+            ev.push(seal_ev(rng, 5, pt, aad));
+            ev.push(Ev::Deliver { r: 5, from: 5, rec: RecRef::Next, fault: Fault::None, api: open_api(rng) });
         }
     }
     ev
@@ -302,7 +459,7 @@ pub fn gen_c02(rng: &mut Prng, run: u64, _t: &Tier) -> Vec<Ev> {
         for c in 0..3 {
             if seals {
                 let (pt, aad) = msg(rng, true);
-                ev.push(Ev::Seal { c, pt, aad, inplace: rng.chance(1, 2) });
+                ev.push(seal_ev(rng, c, pt, aad));
                 ev.push(Ev::Deliver { r: c, from: c, rec: RecRef::Next, fault: Fault::None, api: open_api(rng) });
             }
             if rng.chance(1, 2) {
@@ -332,11 +489,11 @@ pub fn gen_c02(rng: &mut Prng, run: u64, _t: &Tier) -> Vec<Ev> {
             ev.push(Ev::Deliver { r: 1, from: 1, rec: RecRef::Index(0), fault: Fault::None, api });
         }
     }
-    if suite.kem.is_nist() && rng.chance(1, 6) {
-        // a receiver whose encapsulated key is the valid point that makes the DH x-coordinate 0
+    if rng.chance(1, 6) {
+        // a receiver whose encapsulated key is a valid key that makes the DH result special (x = 0, ...)
         let ikm_r = rng.rand_bytes(32);
         let (sk_r, _, _) = refhpke::derive_keypair(suite.kem, &ikm_r);
-        if let Some(enc) = refhpke::zero_x_partner(suite.kem, &sk_r) {
+        if let Some(enc) = dh_partner(rng, suite.kem, &sk_r) {
             let mut c0 = cfg.clone();
             c0.mode = if mode.has_psk() { ModeKind::Psk } else { ModeKind::Base };
             ev.push(Ev::Keygen { k: 30, kem: suite.kem, ikm: b(ikm_r) });
@@ -367,7 +524,7 @@ pub fn gen_c02(rng: &mut Prng, run: u64, _t: &Tier) -> Vec<Ev> {
                 ev.push(Ev::Jump { c, role: Role::R, to });
                 for _ in 0..2 {
                     let (pt, aad) = msg(rng, false);
-                    ev.push(Ev::Seal { c, pt, aad, inplace: rng.chance(1, 2) });
+                    ev.push(seal_ev(rng, c, pt, aad));
                     ev.push(Ev::Deliver { r: c, from: c, rec: RecRef::Next, fault: Fault::None, api: open_api(rng) });
                 }
             }
@@ -411,11 +568,30 @@ pub fn gen_c03(rng: &mut Prng, run: u64, _t: &Tier) -> Vec<Ev> {
     ev.push(Ev::KemProbe { kem, kr: 0, ks: None, rng: rng_script(rng, kem) });
     ev.push(Ev::KemProbe { kem, kr: 0, ks: Some(1), rng: rng_script(rng, kem) });
     ev.push(Ev::KemProbe { kem, kr: 2, ks: Some(0), rng: rng_script(rng, kem) });
-    if kem.is_nist() && rng.chance(1, 3) {
-        // valid keys whose DH result has x-coordinate 0 (not the point at infinity: must work)
+    if kem == KemId::X25519 && rng.chance(1, 2) {
+        // any 32-byte string that is not of small order is a usable recipient key: tiny u-coordinates,
+        // points on the quadratic twist (half of all strings), non-canonical values
+        let mut pk = rng.rand_bytes(32);
+        if rng.chance(1, 2) {
+            pk = vec![0u8; 32];
+            pk[0] = rng.range(2, 60) as u8;
+        }
+        ev.push(Ev::KeyRaw { k: 10, kem, sk: b(vec![]), pk: b(pk) });
+        let mode = if rng.chance(1, 2) { ModeKind::Base } else { ModeKind::Auth };
+        let cfg = gen_cfg(rng, SuiteId { kem, kdf: kem.kem_kdf(), aead: AeadId::ChaCha, shim: false }, mode, 10);
+        ev.push(Ev::SetupS { c: 8, cfg, kr: 10, ks: if mode.has_auth() { Some(1) } else { None }, ks_pub: None, rng: rng_script(rng, kem), model_only: false });
+        ev.push(Ev::KemProbe { kem, kr: 10, ks: Some(1), rng: rng_script(rng, kem) });
+    }
+    if rng.chance(1, 4) {
+        let m = *rng.pick(&MODES);
+        let cfg = gen_cfg(rng, SuiteId { kem, kdf: kem.kem_kdf(), aead: AeadId::ChaCha, shim: false }, m, 10);
+        special_dh_session(&mut ev, rng, 6, &cfg, false, true);
+    }
+    if rng.chance(1, 3) {
+        // valid keys whose DH result is special (x-coordinate 0, tiny, >= n, mostly zero bytes: must work)
         let script = b(rng.rand_bytes(kem.rfc_sizes().2));
         let (sk_e, _, _) = refhpke::derive_keypair(kem, &script);
-        if let Some(pk_r) = refhpke::zero_x_partner(kem, &sk_e) {
+        if let Some(pk_r) = dh_partner(rng, kem, &sk_e) {
             ev.push(Ev::KeyRaw { k: 6, kem, sk: b(vec![]), pk: b(pk_r) });
             let cfg = gen_cfg(rng, SuiteId { kem, kdf: kem.kem_kdf(), aead: AeadId::ChaCha, shim: false }, ModeKind::Base, 10);
             ev.push(Ev::SetupS { c: 6, cfg: cfg.clone(), kr: 6, ks: None, ks_pub: None, rng: script, model_only: false });
@@ -423,7 +599,7 @@ pub fn gen_c03(rng: &mut Prng, run: u64, _t: &Tier) -> Vec<Ev> {
         }
         let ikm_r = rng.rand_bytes(32);
         let (sk_r, _, _) = refhpke::derive_keypair(kem, &ikm_r);
-        if let Some(enc) = refhpke::zero_x_partner(kem, &sk_r) {
+        if let Some(enc) = dh_partner(rng, kem, &sk_r) {
             ev.push(Ev::Keygen { k: 7, kem, ikm: b(ikm_r) });
             let mode = if rng.chance(1, 2) { ModeKind::Base } else { ModeKind::Auth };
             let cfg = gen_cfg(rng, SuiteId { kem, kdf: kem.kem_kdf(), aead: AeadId::ChaCha, shim: false }, mode, 10);
@@ -440,7 +616,27 @@ pub fn gen_c03(rng: &mut Prng, run: u64, _t: &Tier) -> Vec<Ev> {
 
 // ---------------------------------------------------------------------------------- C04
 
+/// One message of more than 2^32 bytes (legal for all three AEADs), then ordinary traffic on the same
+/// contexts: positions, nonces and counters must be those of any other message
+fn single_huge_message(rng: &mut Prng, run: u64) -> Vec<Ev> {
+    let mut ev = vec![];
+    let aead = SEAL_AEADS[(run / 3 % 3) as usize];
+    let cfg = gen_cfg(rng, SuiteId { kem: KemId::X25519, kdf: KdfId::S256, aead, shim: false }, ModeKind::Base, 10);
+    setup_pair(&mut ev, rng, 0, &cfg, false, false);
+    ev.push(Ev::Pump { r: 0, from: 0, n: 2, len: 9, inplace_s: false, inplace_r: false });
+    ev.push(Ev::VolumePump { c: 0, n: 1, len: (1usize << 32) + 17 });
+    for _ in 0..3 {
+        let (pt, aad) = msg(rng, false);
+        ev.push(seal_ev(rng, 0, pt, aad));
+        ev.push(Ev::Deliver { r: 0, from: 0, rec: RecRef::Next, fault: Fault::None, api: OpenApi::Alloc });
+    }
+    ev
+}
+
 pub fn gen_c04(rng: &mut Prng, run: u64, t: &Tier) -> Vec<Ev> {
+    if run == 6 || (t.thorough && run % 100_000 == 78) {
+        return single_huge_message(rng, run);
+    }
     let mut ev = vec![];
     let shim = run % 4 != 3;
     let aead = SEAL_AEADS[(run % 3) as usize];
@@ -485,7 +681,7 @@ pub fn gen_c04(rng: &mut Prng, run: u64, t: &Tier) -> Vec<Ev> {
         let k = rng.range(1, 3);
         for _ in 0..k {
             let (pt, aad) = msg(rng, false);
-            ev.push(Ev::Seal { c: 0, pt, aad, inplace: rng.chance(1, 2) });
+            ev.push(seal_ev(rng, 0, pt, aad));
             if !shim {
                 ev.push(Ev::Deliver { r: 0, from: 0, rec: RecRef::Next, fault: Fault::None, api: open_api(rng) });
             }
@@ -496,7 +692,7 @@ pub fn gen_c04(rng: &mut Prng, run: u64, t: &Tier) -> Vec<Ev> {
         ev.push(Ev::Jump { c: 0, role: Role::S, to: u64::MAX - rng.below(3) });
         for _ in 0..rng.range(3, 8) {
             let (pt, aad) = msg(rng, false);
-            ev.push(Ev::Seal { c: 0, pt, aad, inplace: rng.chance(1, 2) });
+            ev.push(seal_ev(rng, 0, pt, aad));
             if rng.chance(1, 4) && shim {
                 ev.push(Ev::FailNextSeal { c: 0 });
             }
@@ -564,6 +760,11 @@ pub fn gen_history(rng: &mut Prng, run: u64, o: &HistOpts) -> Vec<Ev> {
         if o.shim_ok && suite.aead.seals() && rng.chance(1, 3) {
             suite.shim = true;
         }
+        if rng.chance(1, 30) {
+            let cfg = special_ks_session(&mut ev, rng, c, o.shim_ok);
+            cfgs.push(cfg);
+            continue;
+        }
         let cfg = if c > 0 && rng.chance(1, 4) { cfgs[0usize].clone() } else { gen_cfg(rng, suite, mode, 100) };
         setup_pair(&mut ev, rng, c, &cfg, false, false);
         cfgs.push(cfg);
@@ -584,7 +785,7 @@ pub fn gen_history(rng: &mut Prng, run: u64, o: &HistOpts) -> Vec<Ev> {
         if roll < 30 || (sched == 2 && roll < 50) {
             let big = rng_big(rng);
             let (pt, aad) = msg(rng, big);
-            ev.push(Ev::Seal { c, pt, aad, inplace: rng.chance(1, 2) });
+            ev.push(seal_ev(rng, c, pt, aad));
         } else if roll < 70 {
             let from = if faulty && ns > 1 && rng.chance(1, 6) { rng.below(ns as u64) as usize } else { c };
             let rec = if !faulty {
@@ -620,7 +821,7 @@ pub fn gen_history(rng: &mut Prng, run: u64, o: &HistOpts) -> Vec<Ev> {
                     ev.push(Ev::Deliver { r: c, from: c, rec: RecRef::Index(i), fault: Fault::None, api: open_api(rng) });
                 }
                 let (pt, aad) = msg(rng, false);
-                ev.push(Ev::Seal { c, pt, aad, inplace: rng.chance(1, 2) });
+                ev.push(seal_ev(rng, c, pt, aad));
                 ev.push(Ev::Deliver { r: c, from: c, rec: RecRef::Next, fault: Fault::None, api: open_api(rng) });
                 for i in 0..6 {
                     ev.push(Ev::Deliver { r: c, from: c, rec: RecRef::Index(i), fault: Fault::None, api: open_api(rng) });
@@ -644,7 +845,7 @@ pub fn gen_history(rng: &mut Prng, run: u64, o: &HistOpts) -> Vec<Ev> {
         } else if roll < 91 && cfgs[c].suite.shim {
             ev.push(Ev::FailNextSeal { c });
             let (pt, aad) = msg(rng, false);
-            ev.push(Ev::Seal { c, pt, aad, inplace: rng.chance(1, 2) });
+            ev.push(seal_ev(rng, c, pt, aad));
             after_special = true;
         } else if roll < 94 && o.teardown {
             let role = if rng.chance(1, 2) { Role::S } else { Role::R };
@@ -659,7 +860,7 @@ pub fn gen_history(rng: &mut Prng, run: u64, o: &HistOpts) -> Vec<Ev> {
             ev.push(Ev::RawOpen { r: c, ct: b(rng.bytes(l)), aad: b(rng.var_bytes(20)), tag });
         } else {
             let (pt, aad) = msg(rng, false);
-            ev.push(Ev::Seal { c, pt, aad, inplace: rng.chance(1, 2) });
+            ev.push(seal_ev(rng, c, pt, aad));
             ev.push(Ev::Deliver { r: c, from: c, rec: RecRef::Next, fault: Fault::None, api: open_api(rng) });
         }
     }
@@ -684,7 +885,7 @@ pub fn gen_history(rng: &mut Prng, run: u64, o: &HistOpts) -> Vec<Ev> {
         let k = rng.range(1, 3);
         for _ in 0..k {
             let (pt, aad) = msg(rng, false);
-            ev.push(Ev::Seal { c, pt, aad, inplace: rng.chance(1, 2) });
+            ev.push(seal_ev(rng, c, pt, aad));
         }
         for _ in 0..k + 3 {
             ev.push(Ev::Deliver { r: c, from: c, rec: RecRef::Next, fault: Fault::None, api: open_api(rng) });
@@ -733,7 +934,7 @@ pub fn gen_c06(rng: &mut Prng, run: u64, t: &Tier) -> Vec<Ev> {
         let cap = if t.thorough && rng.chance(1, 10) { 5000 } else { 200 };
         let pt = b(rng.var_bytes(cap));
         let aad = b(rng.var_bytes(cap / 2));
-        ev.push(Ev::Seal { c: 0, pt, aad, inplace: rng.chance(1, 2) });
+        ev.push(seal_ev(rng, 0, pt, aad));
     }
     for i in 0..nrec {
         let api = match rng.below(6) {
@@ -830,7 +1031,7 @@ pub fn gen_c07(rng: &mut Prng, run: u64, _t: &Tier) -> Vec<Ev> {
         cfg.psk = b(vec![]);
         cfg.psk_id = b(vec![]);
     } else if rng.chance(1, 6) {
-        let l = *rng.pick(&[65usize, 100, 129, 200]);
+        let l = *rng.pick(&[65usize, 100, 129, 200, 1025, 2048, 5000]);
         cfg.psk = b(rng.rand_bytes(l));
     }
     let kem = suite.kem;
@@ -953,7 +1154,7 @@ pub fn gen_c07(rng: &mut Prng, run: u64, _t: &Tier) -> Vec<Ev> {
         ev.push(Ev::SetupR { c: 1, cfg: cfg.clone(), kr: 0, ks: auth_ks, enc: EncSrc::Of(1), model_only: false });
         for _ in 0..rng.range(1, 3) {
             let (pt, aad) = msg(rng, false);
-            ev.push(Ev::Seal { c: 1, pt, aad, inplace: rng.chance(1, 2) });
+            ev.push(seal_ev(rng, 1, pt, aad));
             ev.push(Ev::Deliver { r: 1, from: 1, rec: RecRef::Index(0), fault: Fault::None, api: open_api(rng) });
         }
         for len in [16usize, 32, cfg.suite.kdf.nh(), 64] {
@@ -963,7 +1164,7 @@ pub fn gen_c07(rng: &mut Prng, run: u64, _t: &Tier) -> Vec<Ev> {
         ev.push(Ev::SetupR { c: 1, cfg: c2.clone(), kr, ks, enc, model_only: false });
         for i in 0..rng.range(1, 3) {
             let (pt, aad) = msg(rng, false);
-            ev.push(Ev::Seal { c: 0, pt, aad, inplace: rng.chance(1, 2) });
+            ev.push(seal_ev(rng, 0, pt, aad));
             ev.push(Ev::Deliver { r: 1, from: 0, rec: RecRef::Index(i), fault: Fault::None, api: open_api(rng) });
             // the agreeing receiver still works
             ev.push(Ev::Deliver { r: 0, from: 0, rec: RecRef::Next, fault: Fault::None, api: open_api(rng) });
@@ -987,7 +1188,15 @@ pub fn gen_c08(rng: &mut Prng, run: u64, _t: &Tier) -> Vec<Ev> {
     let kind = (run / 4) % 4; // 0 other identity, 1 public half only, 2 non-auth mode, 3 wrong psk
     let mode = if kind == 3 { if rng.chance(1, 2) { ModeKind::Psk } else { ModeKind::AuthPsk } } else if rng.chance(1, 2) { ModeKind::Auth } else { ModeKind::AuthPsk };
     let suite = SuiteId { kem, kdf: *rng.pick(&KDFS), aead: *rng.pick(&SEAL_AEADS), shim: false };
-    let cfg = gen_cfg(rng, suite, mode, 60);
+    let mut cfg = gen_cfg(rng, suite, mode, 60);
+    if mode.has_psk() && rng.chance(1, 5) {
+        // PSKs longer than one hash block (64 / 128 bytes)
+        let l = *rng.pick(&[65usize, 100, 129, 200, 300, 1025, 2048, 5000]);
+        cfg.psk = b(rng.rand_bytes(l));
+        if cfg.psk_id.is_empty() {
+            cfg.psk_id = b(rng.rand_bytes(7));
+        }
+    }
     ev.push(Ev::Keygen { k: 0, kem, ikm: ikm(rng) }); // recipient
     ev.push(Ev::Keygen { k: 1, kem, ikm: ikm(rng) }); // legitimate sender
     ev.push(Ev::Keygen { k: 2, kem, ikm: ikm(rng) }); // impostor
@@ -1022,7 +1231,7 @@ pub fn gen_c08(rng: &mut Prng, run: u64, _t: &Tier) -> Vec<Ev> {
     ev.push(Ev::SetupR { c: 1, cfg: cfg.clone(), kr: 0, ks, enc: EncSrc::Of(1), model_only: false });
     for i in 0..rng.range(1, 3) {
         let (pt, aad) = msg(rng, false);
-        ev.push(Ev::Seal { c: 1, pt, aad, inplace: rng.chance(1, 2) });
+        ev.push(seal_ev(rng, 1, pt, aad));
         ev.push(Ev::Deliver { r: 1, from: 1, rec: RecRef::Index(i), fault: Fault::None, api: open_api(rng) });
     }
     ev.push(Ev::Deliver { r: 1, from: 1, rec: RecRef::Index(0), fault: Fault::None, api: OpenApi::SingleShot });
@@ -1323,7 +1532,31 @@ pub fn gen_c10(rng: &mut Prng, run: u64, _t: &Tier) -> Vec<Ev> {
         }
         _ => {
             // negatives: random strings and bit-flipped honest keys are never rejected
-            let pkx = if rng.chance(1, 2) { rng.rand_bytes(32) } else { let mut v = small[enc_i].clone(); let bit = rng.range(8, 250); v[bit / 8] ^= 1 << (bit % 8); v };
+            let mut pkx = if rng.chance(1, 2) { rng.rand_bytes(32) } else { let mut v = small[enc_i].clone(); let bit = rng.range(8, 250); v[bit / 8] ^= 1 << (bit % 8); v };
+            if rng.chance(1, 3) {
+                // tiny u-coordinates (half of them on the twist): ordinary keys for X25519
+                pkx = vec![0u8; 32];
+                pkx[0] = rng.range(2, 40) as u8;
+            }
+            if rng.chance(1, 3) {
+                // a valid key crafted so that the recipient's DH result is *almost* zero (all but a few
+                // bytes zero): not small order, must be accepted
+                let ikm_r = rng.rand_bytes(32);
+                let (sk_r, _, _) = refhpke::derive_keypair(kem, &ikm_r);
+                if let Some(pk) = dh_partner(rng, kem, &sk_r) {
+                    ev[0] = Ev::Keygen { k: 0, kem, ikm: b(ikm_r) };
+                    pkx = pk;
+                }
+            }
+            if rng.chance(1, 4) {
+                // the same for the sender: recipient key crafted against the ephemeral key of the RNG script
+                let script = rng.rand_bytes(32);
+                let (sk_e, _, _) = refhpke::derive_keypair(kem, &script);
+                if let Some(pk) = dh_partner(rng, kem, &sk_e) {
+                    ev.push(Ev::KeyRaw { k: 5, kem, sk: b(vec![]), pk: b(pk) });
+                    ev.push(Ev::SetupS { c: 4, cfg: cfg.clone(), kr: 5, ks, ks_pub: None, rng: b(script), model_only: false });
+                }
+            }
             ev.push(Ev::KeyRaw { k: 2, kem, sk: b(rng.rand_bytes(32)), pk: b(pkx.clone()) });
             ev.push(Ev::SetupS { c: 0, cfg: cfg.clone(), kr: 2, ks, ks_pub: None, rng: rng_script(rng, kem), model_only: false });
             ev.push(Ev::SetupR { c: 0, cfg: cfg.clone(), kr: 0, ks, enc: EncSrc::Raw(b(pkx.clone())), model_only: false });
@@ -1394,6 +1627,41 @@ pub fn gen_c11(rng: &mut Prng, run: u64, _t: &Tier) -> Vec<Ev> {
 
 // ---------------------------------------------------------------------------------- C12
 
+/// A valid encoding wrapped the way other formats carry the same value (ASN.1 OCTET STRING / INTEGER /
+/// BIT STRING headers, a sign octet, a SEC1 tag, a length prefix, hex text): none of these is the RFC
+/// 9180 encoding, so each is a wrong-length input (or, at the right length, a different value)
+pub fn framed_variants(val: &[u8]) -> Vec<Vec<u8>> {
+    let n = val.len();
+    let mut out: Vec<Vec<u8>> = vec![];
+    let pre = |p: &[u8]| -> Vec<u8> { let mut v = p.to_vec(); v.extend_from_slice(val); v };
+    out.push(pre(&[0x00]));
+    out.push(pre(&[0x04]));
+    out.push(pre(&[0x04, n as u8]));
+    out.push(pre(&[0x02, n as u8]));
+    out.push(pre(&[0x02, (n + 1) as u8, 0x00]));
+    out.push(pre(&[0x03, (n + 1) as u8, 0x00]));
+    out.push(pre(&[0x30, n as u8]));
+    out.push(pre(&[0x04, 0x81, n as u8]));
+    out.push(pre(&[(n >> 8) as u8, n as u8]));
+    out.push(pre(&[n as u8]));
+    out.push(pre(&[0, 0, (n >> 8) as u8, n as u8]));
+    // suffixes
+    for suf in [&[0x00u8][..], &[0x0a], &[0x0d, 0x0a], &[0x00, 0x00]] {
+        let mut v = val.to_vec();
+        v.extend_from_slice(suf);
+        out.push(v);
+    }
+    // text forms
+    out.push(val.iter().flat_map(|b| format!("{:02x}", b).into_bytes()).collect());
+    out.push(val.iter().flat_map(|b| format!("{:02X}", b).into_bytes()).collect());
+    // leading zeros stripped / reversed byte order (same length: a different value or invalid)
+    let stripped: Vec<u8> = val.iter().copied().skip_while(|b| *b == 0).collect();
+    if stripped.len() != n {
+        out.push(stripped);
+    }
+    out
+}
+
 pub fn gen_c12(rng: &mut Prng, run: u64, _t: &Tier) -> Vec<Ev> {
     let mut ev = vec![];
     let kem = KEMS[(run % 4) as usize];
@@ -1425,6 +1693,9 @@ pub fn gen_c12(rng: &mut Prng, run: u64, _t: &Tier) -> Vec<Ev> {
     for extra in [256usize, 512, 65536] {
         let mut v = val.clone();
         v.resize(size + extra, 0);
+        ev.push(Ev::DecodeProbe { suite, kind, bytes: b(v) });
+    }
+    for v in framed_variants(&val) {
         ev.push(Ev::DecodeProbe { suite, kind, bytes: b(v) });
     }
     if kem.is_nist() && matches!(kind, Kind::Pk | Kind::Enc) {
@@ -1588,13 +1859,13 @@ pub fn gen_c13(rng: &mut Prng, run: u64, t: &Tier) -> Vec<Ev> {
                 ev.push(Ev::RawOpen { r: 0, ct: b(rng.bytes(l)), aad: b(rng.var_bytes(20)), tag });
             }
             let (pt, aad) = msg(rng, false);
-            ev.push(Ev::Seal { c: 0, pt, aad, inplace: rng.chance(1, 2) });
+            ev.push(seal_ev(rng, 0, pt, aad));
         }
         _ => {}
     }
     // valid traffic with hostile modifications
     let (pt, aad) = msg(rng, true);
-    ev.push(Ev::Seal { c: 0, pt, aad, inplace: rng.chance(1, 2) });
+    ev.push(seal_ev(rng, 0, pt, aad));
     for _ in 0..4 {
         let api = *rng.pick(&[OpenApi::Alloc, OpenApi::InPlace, OpenApi::SingleShot, OpenApi::SingleShotInPlace]);
         ev.push(Ev::Deliver { r: 0, from: 0, rec: RecRef::Index(0), fault: gen_fault(rng), api });
@@ -1672,6 +1943,19 @@ pub fn gen_c14(rng: &mut Prng, run: u64, _t: &Tier) -> Vec<Ev> {
             ev.push(Ev::Jump { c: 0, role: Role::R, to: 0 });
         }
     }
+    if suite.aead.seals() && rng.chance(1, 4) {
+        // a first message whose *ciphertext* begins with the encapsulated key (or the recipient key, the
+        // info string, ...): every opening interface must treat it like any other ciphertext
+        ev.push(Ev::SetupS { c: 1, cfg: cfg.clone(), kr: 0, ks, ks_pub: None, rng: rng_script(rng, kem), model_only: false });
+        let craft = *rng.pick(&[Craft::PrefixEnc, Craft::PrefixEnc, Craft::PrefixPkR, Craft::PrefixInfo, Craft::PrefixAad, Craft::Zeros, Craft::Ones]);
+        let len = *rng.pick(&[0usize, 1, 15, 16, 17, 40]);
+        ev.push(Ev::SealCrafted { c: 1, craft, len, aad: b(rng.var_bytes(20)), inplace: rng.chance(1, 2) });
+        ev.push(Ev::SetupR { c: 1, cfg: cfg.clone(), kr: 0, ks, enc: EncSrc::Of(1), model_only: false });
+        for api in [OpenApi::SingleShot, OpenApi::SingleShotInPlace, OpenApi::Alloc, OpenApi::InPlace] {
+            ev.push(Ev::Deliver { r: 1, from: 1, rec: RecRef::Index(0), fault: Fault::None, api });
+            ev.push(Ev::Jump { c: 1, role: Role::R, to: 0 });
+        }
+    }
     ev
 }
 
@@ -1694,6 +1978,16 @@ pub fn gen_c15(rng: &mut Prng, run: u64, _t: &Tier) -> Vec<Ev> {
         // equal contents are a legal bundle too
         let same = rng.var_bytes(64);
         ev.push(Ev::PskProbe { psk: b(same.clone()), psk_id: b(same) });
+    if run % 4000 == 17 {
+        // lengths whose product or sum wraps in 32 or 64 bits (a handful per batch: each maps up to 8 GiB of zero pages without touching them)
+        let ls = [1u64 << 31, (1 << 31) + 1, 1 << 32, (1 << 32) - 1, (1 << 32) + 1, 1 << 33, 1 << 16, 3, 0];
+        let a = *rng.pick(&ls);
+        let c = *rng.pick(&ls);
+        ev.push(Ev::PskLenProbe { psk_len: a, id_len: c });
+        ev.push(Ev::PskLenProbe { psk_len: 1 << 32, id_len: 1 << 32 });
+        ev.push(Ev::PskLenProbe { psk_len: 1 << 31, id_len: 1 << 33 });
+        ev.push(Ev::PskLenProbe { psk_len: 1 << 33, id_len: 0 });
+    }
     }
     // sessions against the model: psk != psk_id so that a swap is visible
     let (suite, mode) = suite_mode_biased(run, rng, &ALL_AEADS, false);
@@ -1709,7 +2003,7 @@ pub fn gen_c15(rng: &mut Prng, run: u64, _t: &Tier) -> Vec<Ev> {
     if suite.aead.seals() {
         for _ in 0..2 {
             let (pt, aad) = msg(rng, false);
-            ev.push(Ev::Seal { c: 0, pt, aad, inplace: rng.chance(1, 2) });
+            ev.push(seal_ev(rng, 0, pt, aad));
             ev.push(Ev::Deliver { r: 0, from: 0, rec: RecRef::Next, fault: Fault::None, api: open_api(rng) });
         }
     }
